@@ -1,6 +1,6 @@
 """C16 — Recovered runs produce the same outputs as failure-free runs."""
 from harness.lib.framework import Prop, coq_bool, coq_list, coq_nat, coq_opt, coq_str, coq_Z
-from harness.props._recov_shapes import dag_of, denote, step_names
+from harness.props._recov_shapes import dag_out, denote, step_names
 
 PHASES = ["schedule", "transfer", "execute"]
 
@@ -26,6 +26,9 @@ def solo_jobs(shape):
     if k == "scatter":
         return ([(f"/a{i}", "0") for i in range(shape["pre"])] + [("/sp", "0"), ("/g", "0")]
                 + [(f"/c{i}", "0") for i in range(shape["post"])])
+    if k == "loop":
+        # body and cnt of one iteration run side by side: only the pre/post jobs are alone
+        return [(f"/a{i}", "0") for i in range(shape["pre"])] + [(f"/c{i}", "0") for i in range(shape["post"])]
     return [("/root", "0"), ("/join", "0")]
 
 
@@ -43,20 +46,21 @@ class C16(Prop):
         "inputs yields the failure-free output and only adds values, C16_rollback_completes_partial); and a refutation of "
         "the text's completion clause as stated (C16_completes_refuted: the retry counter counts re-executions, so jobs "
         "that each fail fewer times than the limit can still exhaust it). Tied to /repo by running real workflows "
-        "(pipelines 1..5, scatter/gather width 1..12 depth 1..2, diamonds 2..4; primitive and file data; faults in "
+        "(pipelines 1..5, loops 0..6 iterations, scatter/gather width 1..12 depth 1..2, diamonds 2..4; primitive and file data; faults in "
         "schedule/transfer/execute, soft and fail-stop, counts 1..3, several jobs) with the real executor and rollback "
         "manager, replaying the recorded history (completed executions, wipes) in the model and comparing the delivered "
         "output with the model's store and with the failure-free denotation; oracle from the property text on every run.")
     LEVEL_NOTE = (
         "Partial: liveness is proved for the canonical rollback without the retry budget and without concurrency of "
-        "recoveries; loops are covered by the theorems (any unfolded DAG) but not by the correspondence generator; data "
+        "recoveries; data "
         "transfer, Step.restore and the provenance-graph search (C18) are abstracted (a rollback is any set of "
         "re-executions). Equality of outputs on the real engine is established per run. Trusted: Coq kernel + vm_compute, "
         "Recovery/Model.v, the harness (fault-injecting Step/Command subclasses, recording shims), asyncio, SQLite, local "
         "filesystem. No axioms.")
     TECHNIQUE = ("Coq proof (store invariant 'agrees with the failure-free fixpoint' over all histories; strong induction "
                  "for the rollback) + vm_compute replay of real engine histories in the model")
-    RULE = ("shapes: pipeline n in 1..5, scatter (pre 0..1, width 1..12, depth 1..2, post 0..1), diamond 2..4 branches; data "
+    RULE = ("shapes: pipeline n in 1..5, loop (0..6 iterations, counter + body job per iteration, pre/post 0..1), scatter (pre 0..1, "
+            "width 1..12, depth 1..2, post 0..1), diamond 2..4 branches; data "
             "type file or primitive; 1..4 faulty jobs, each (phase, kind, count 1..3); fail-stop only on jobs that run alone "
             "(with concurrent siblings the organically failing set depends on I/O timing: C19); limit = max count + 1 + slack, "
             "slack in {0,1,2,20}; seeded permuting event loop on half the cases. Non-trivial = at least one fault. Distinct = "
@@ -78,8 +82,12 @@ class C16(Prop):
     def _shape(self, rng, tier):
         r = rng.random()
         typ = rng.choice(["file", "file", "primitive"])
-        if r < 0.4:
+        if r < 0.3:
             return {"kind": "pipeline", "type": typ, "n": rng.randrange(1, 6)}
+        if r < 0.5:
+            it = rng.randrange(0, 7)
+            return {"kind": "loop", "type": typ, "pre": rng.randrange(0, 2), "iters": it,
+                    "post": rng.randrange(0, 2) if it > 0 else 0}
         if r < 0.8:
             return {"kind": "scatter", "type": typ, "pre": rng.randrange(0, 2),
                     "width": rng.choice([1, 2, 3, 4, 6, 10, 12]) if tier != "quick" else rng.choice([1, 2, 3, 5, 11, 12]),
@@ -97,8 +105,14 @@ class C16(Prop):
             if i % 11 != 0:  # every 11th: failure-free (validates the denotation against the real engine)
                 for st, tag in rng.sample(jobs, min(len(jobs), rng.choice([1, 1, 2, 2, 3, 4]))):
                     kind = rng.choice(["soft", "failstop"]) if (st, tag) in solo else "soft"
-                    faults.append([st, tag, rng.choice(PHASES), kind, rng.choice([1, 1, 2, 3])])
-            mx = max([f[4] for f in faults], default=0)
+                    ph = rng.choice(PHASES)
+                    faults.append([st, tag, ph, kind, rng.choice([1, 1, 2, 3])])
+                    if rng.random() < 0.2:   # the same job also fails in another phase
+                        faults.append([st, tag, rng.choice([p for p in PHASES if p != ph]), kind, 1])
+            tot = {}
+            for f in faults:
+                tot[(f[0], f[1])] = tot.get((f[0], f[1]), 0) + f[4]
+            mx = max(tot.values(), default=0)
             slack = rng.choice([0, 1, 2, 20, 20])
             cases.append({"f": "run", "manager": "rollback", "limit": mx + 1 + slack, "slack": slack, "shape": shape,
                           "faults": faults, "sched": rng.randrange(1 << 30) if rng.random() < 0.5 else None})
@@ -135,7 +149,10 @@ class C16(Prop):
         if "hang" in o:
             return ("hang", "the run neither completed nor raised within the time limit")
         # every job fails fewer times than the limit (by construction of the case): the run must complete ...
-        assert all(f[4] < c["limit"] for f in c["faults"])
+        tot = {}
+        for f in c["faults"]:
+            tot[(f[0], f[1])] = tot.get((f[0], f[1]), 0) + f[4]
+        assert all(v < c["limit"] for v in tot.values())
         if o["result"] != "completed":
             return (self._cause(c, o), f"each job fails fewer than {c['limit']} times ({c['faults']}) but the run ended "
                                        f"with {o['result']}; versions {o.get('versions')}")
@@ -145,9 +162,10 @@ class C16(Prop):
         vals = [t for t in toks if "term" not in t]
         if len(vals) != 1 or vals[0].get("value") != want or vals[0].get("tag") != "0":
             return ("outputs-differ", f"output tokens {toks} but the failure-free output is {want!r}")
-        if toks[-1] != {"term": "COMPLETED"}:
-            return ("outputs-differ", f"output port did not terminate COMPLETED: {toks}")
-        bad = [s for s in o["steps"] if s[1] != "COMPLETED"]
+        empty_loop = c["shape"]["kind"] == "loop" and c["shape"]["iters"] == 0   # nothing runs: ports end SKIPPED
+        if toks[-1] != {"term": "SKIPPED" if empty_loop else "COMPLETED"}:
+            return ("outputs-differ", f"output port did not terminate as in the failure-free run: {toks}")
+        bad = [s for s in o["steps"] if s[1] != "COMPLETED" and not (s[1] == "SKIPPED" and (empty_loop or s[0] in ("/body", "/cnt")))]
         if bad:
             return ("step-status", f"run completed but steps {bad}")
         return None
@@ -156,25 +174,35 @@ class C16(Prop):
     def coq_case(self, c, o):
         if "crash" in o or "hang" in o:
             return None
-        d = dag_of(c["shape"])
+        v = self.oracle(c, o)
+        if v and v[0] == "outputs-differ":
+            # the engine completed with a different output (e.g. a gather forced with an element missing): the job-DAG
+            # model has no such step, the case is outside its domain and is judged by the oracle alone
+            return None
+        if c["shape"]["kind"] == "loop" and c["shape"]["iters"] == 0:
+            return None   # no job at all; the output is the loop-output step's Token(None)
+        d, out, vol = dag_out(c["shape"])
         idx = {name: i for i, (name, _, _) in enumerate(d) if name}
-        evs = ["Exec 0"]
+        evs = [f"Exec {i}" for i, (name, _, _) in enumerate(d) if name is None]   # workflow inputs
         for e in o["trace"]:
             if e[0] == "done" and e[1] in idx:
                 evs.append(f"Exec {idx[e[1]]}")
             elif e[0] == "wipe" and c["shape"]["type"] == "file":
-                evs.extend(f"Lose {i}" for i in range(1, len(d)))
+                evs.extend(f"Lose {i}" for i in vol)
         completed = o["result"] == "completed"
         vals = [t for t in o["out_tokens"] if "term" not in t]
         obsv = coq_cval(vals[0]["value"]) if len(vals) == 1 and "value" in vals[0] else None
         dag = coq_list([f"jb {coq_list([coq_nat(k) for k in ins])} ({op})" for _, ins, op in d])
-        return f"CRun {dag} {coq_list(evs)} {coq_nat(len(d) - 1)} {coq_bool(completed)} {coq_opt(obsv, lambda x: x)}"
+        return f"CRun {dag} {coq_list(evs)} {coq_nat(out)} {coq_bool(completed)} {coq_opt(obsv, lambda x: x)}"
 
     def nontrivial(self, c):
         return bool(c["faults"])
 
     def signature(self, c, o, clause):
         kinds = "failstop" if any(f[3] == "failstop" for f in c["faults"]) else ("soft" if c["faults"] else "none")
+        jobs = [(f[0], f[1]) for f in c["faults"]]
+        if clause == "outputs-differ" and len(set(jobs)) < len(jobs):
+            kinds += "+multiphase"   # some job fails in two different phases
         return f"{clause}/{c['shape']['kind']}/{kinds}/{'tight' if c['slack'] <= 2 else 'slack'}"
 
     def shrink(self, c):
